@@ -271,7 +271,13 @@ def execute(R, op, tmp, opened=None):
             declared.update([src, dest])
             argv = [a.replace('{src}', src).replace('{dest}', dest)
                     for a in op['argv']]
-            rc, printed = run_cli(R, argv, True)
+            if op.get('reuse_args'):
+                # a caller that drives the command from Python: the
+                # arguments are parsed once and the command is run twice
+                # with that object (here: the result of the second run)
+                rc, printed = run_parsed_twice(R, argv, tmp, dest)
+            else:
+                rc, printed = run_cli(R, argv, True)
             outs = {}
             if op.get('stdout'):
                 # the analyses print their result
@@ -310,6 +316,34 @@ def run_cli(R, argv, want_stdout=False):
         return (rc, so.getvalue()) if want_stdout else rc
     finally:
         sys.argv = old
+
+
+def run_parsed_twice(R, argv, tmp, dest):
+    import argparse
+    parser = argparse.ArgumentParser()
+    sub = parser.add_subparsers(dest='subparser_name')
+    for mod in (R.transform, R.treeanalysis, R.grammar, R.transitions):
+        mod.add_parser(sub)
+    rc, printed = 0, ''
+    with _captured():
+        try:
+            args = parser.parse_args(list(argv))
+        except SystemExit as e:
+            return (e.code if e.code is not None else 0), ''
+    for turn in (1, 2):
+        if turn == 2:
+            for p in os.listdir(tmp):
+                full = os.path.join(tmp, p)
+                if full == dest or full.startswith(dest + '.'):
+                    os.remove(full)
+        with _captured() as (so, se):
+            try:
+                args.func(args)
+                rc = 0
+            except SystemExit as e:
+                rc = e.code if e.code is not None else 0
+        printed = so.getvalue()
+    return rc, printed
 
 
 def main():
